@@ -30,9 +30,13 @@ extern "C" void h_copy() {
     unsigned i = vf_u32();
     vf_assume(i < total);
     const unsigned char before = d[i];
+    unsigned j = vf_u32();
+    vf_assume(j < SPRE + LEN);
+    const unsigned char sbefore = s[j];
     NUM len = vf_any<NUM>();                            // opaque to the compiler, concrete for the solver
     vf_assume(len == LEN);
     Memory::Copy<NUM>(d + PRE, s + SPRE, len);
+    vf_assert(s[j] == sbefore, 3);                      // the source is only read
     if (i >= PRE && i < PRE + LEN) {
         vf_assert(d[i] == s[SPRE + (i - PRE)], 1);      // destination equals source
     } else {
